@@ -67,6 +67,7 @@ theorem dataInv_fresh (f : Nat) : DataInv ({ io := { failAt := f } } : CW) := by
   · simp
   · simp
   · intro h; simp at h
+  · simp [ResEntries]
 
 /-- the state in which `Close` calls `ChunkWriter.Close`, and what `Close` returning nil means for it -/
 theorem Close_unfold (cw : CodecW) (w : Writer) (hcl : w.closed = false) (hok : (w.Close cw).2 = none) :
@@ -197,7 +198,7 @@ theorem rac_roundtrip_thm (cw : CodecW) (D : Bytes → Option Bytes) (hc : Codec
     rw [chunks_empty]
     simp [tiles, decodeChunks]
   · -- at least one chunk
-    obtain ⟨nw, pre, post, chs, hchunks, hmatch, hfile, hpre, hlen⟩ := CW.close_roundtrip c hdi herr hne hclose
+    obtain ⟨nw, pre, post, chs, hchunks, hmatch, hfile, hpre, hlen, _⟩ := CW.close_roundtrip c hdi herr hne hclose
     obtain ⟨lf1, lf2, lf3, lf4⟩ := dataInv_leaf_facts c hdi hne
     have htiles : tiles 0 chs c.dFileSize = true := by
       have := tiles_of_matches nw c.codec chs c.leafNodes.toList 0 hmatch (fun o ho => (lf3 o ho).2.2.1)
